@@ -265,6 +265,61 @@ def check(sd):
     return fails[:3]
 
 
+# ---- a schema override reaches exactly the process it names ---------------------------------------------------------
+LEVEL_SCHEMA = {'tank': {'level': {'_default': 3.0, '_emit': True}}}      # one table shared by every Feeder (a class constant)
+
+
+class Feeder(Process):
+    defaults = {'timestep': 1.0}
+
+    def ports_schema(self):
+        return LEVEL_SCHEMA
+
+    def next_update(self, timestep, states):
+        return {'tank': {'level': 1.0}}
+
+
+class Pair(Composer):
+    def generate_processes(self, config):
+        return {'left': Feeder(), 'right': Feeder()}
+
+    def generate_topology(self, config):
+        return {'left': {'tank': ('lt',)}, 'right': {'tank': ('rt',)}}
+
+
+def check_override_scope(path):
+    """two processes whose ports_schema() returns the same table; a composer-level `_schema` names only one of them: the other
+    keeps its declaration, the shared table is what it was, and a later composer without any override is unaffected"""
+    fails = []
+    pristine = copy.deepcopy(LEVEL_SCHEMA)
+    try:
+        comp = Pair({'_schema': {'left': {'tank': {'level': {'_default': 10.0}}}}}).generate(path=path)
+        eng = Engine(composite=comp, display_info=False, progress_bar=False, emitter='null')
+        eng.update(1)
+        v = eng.state.get_value()
+        for p_ in path:
+            v = v[p_]
+        if (v['lt']['level'], v['rt']['level']) != (11.0, 4.0):
+            fails.append('an override naming only `left` (default 10) gives left/right levels %r / %r after one tick, expected 11.0 / 4.0'
+                         % (v['lt']['level'], v['rt']['level']))
+        if LEVEL_SCHEMA != pristine:
+            fails.append('the table returned by ports_schema() was modified by the override: %r' % (LEVEL_SCHEMA,))
+        eng2 = Engine(composite=Pair({}).generate(path=path), display_info=False, progress_bar=False, emitter='null')
+        eng2.update(1)
+        v = eng2.state.get_value()
+        for p_ in path:
+            v = v[p_]
+        if (v['lt']['level'], v['rt']['level']) != (4.0, 4.0):
+            fails.append('a later composer WITHOUT any override gives levels %r / %r, expected 4.0 / 4.0'
+                         % (v['lt']['level'], v['rt']['level']))
+    except Exception as e:
+        fails.append('override scope scenario raised %s: %s' % (type(e).__name__, str(e)[:160]))
+    finally:
+        LEVEL_SCHEMA.clear()
+        LEVEL_SCHEMA.update(copy.deepcopy(pristine))
+    return fails[:3]
+
+
 def main():
     ap = argparse.ArgumentParser()
     ap.add_argument('--tier', default='quick'); ap.add_argument('--seed', type=int, default=0)
@@ -272,7 +327,7 @@ def main():
     a = ap.parse_args()
     if a.replay:
         d = json.load(open(a.replay))['scenario']
-        fails = check(d['rng'])
+        fails = check_override_scope(tuple(d['override_path'])) if 'override_path' in d else check(d['rng'])
         L.emit_result({'status': 'reproduced' if fails else 'not-reproduced', 'failed': fails})
         return
     n = 150 if a.tier == 'quick' else 3000
@@ -289,6 +344,15 @@ def main():
             failures.append({'id': 'C16.bounded.composites#%d: %s' % (i, fails[0][:300]), 'replay': rp})
             if len(failures) >= 3:
                 break
+    for pi, path in enumerate([(), ('agents', '1')]):
+        if len(failures) >= 3:
+            break
+        evaluations += 1
+        distinct.add('override-scope-%d' % pi)
+        fails = check_override_scope(path)
+        if fails:
+            rp = L.write_replay(a.out, 'C16', 'override%d' % pi, {'override_path': list(path)}, fails, extra={'driver': 'bounded.c16'})
+            failures.append({'id': 'C16.bounded.override-scope#%d: %s' % (pi, fails[0][:300]), 'replay': rp})
     L.emit_result({'status': 'violated' if failures else 'ok', 'evaluations': evaluations,
                    'distinct_nontrivial': len(distinct), 'failures': failures, 'samples': samples,
                    'rule': 'seeded random embedding paths and merge sequences; every case checks embedding, the three entry '
